@@ -557,25 +557,18 @@ func run(ctx *common.Ctx) error {
 	nTrees := ctx.Budget(260, 8000)
 	structCases := 0
 	seenStructFail := map[string]bool{}
-	for i := 0; i < nTrees; i++ {
-		ascii := i%2 == 0
-		g := &mimegen.Gen{Rng: rng, MaxBody: 60, ASCII: ascii}
-		depth := rng.Range(0, 3)
-		if i%25 == 24 {
-			depth = 5
-		}
-		mix := rng.Chance(0.4)
-		tree := g.Tree(depth, rng.Chance(0.8), mix)
-		layout := &mimegen.Layout{Rng: rng, MixEOL: mix, Fold: rng.Chance(0.5), LowerHN: rng.Chance(0.3)}
+	// runTree renders the tree with the layout, runs the implementation and the oracles; returns the signature of the
+	// leaves (type, size, lines) of the reported BODY, "" if the run did not get that far.
+	runTree := func(i int, tree *mimegen.Node, layout *mimegen.Layout, ascii bool, tag string) (string, error) {
 		msg := mimegen.Render(tree, layout)
 		shape := mimegen.Shape(tree)
-		res.Count("generated-tree")
+		res.Count("generated-tree" + tag)
 		resp, err := checkGeneric("tree "+shape, msg, true)
 		if err != nil {
-			return err
+			return "", err
 		}
 		if resp == nil {
-			continue
+			return "", nil
 		}
 		nodes := 0
 		tree.Walk(func(*mimegen.Node) { nodes++ })
@@ -592,9 +585,10 @@ func run(ctx *common.Ctx) error {
 			verdict = ""
 		}
 		if verdict != "" {
-			// shrink to a minimal tree that still fails, normalised
+			// shrink to a minimal tree that still fails (same line-end style), normalised
+			mk := func() *mimegen.Layout { return &mimegen.Layout{Rng: common.NewRng(1), LF: layout.LF} }
 			fails := func(t *mimegen.Node) bool {
-				m := mimegen.Render(t, &mimegen.Layout{Rng: common.NewRng(1)})
+				m := mimegen.Render(t, mk())
 				o, err := r.call(request{Op: "msg", Data: m, Full: true})
 				if err != nil || o.resp == nil {
 					return false
@@ -603,7 +597,7 @@ func run(ctx *common.Ctx) error {
 			}
 			small := mimegen.Shrink(tree, fails, 300)
 			mimegen.Normalize(small)
-			m := mimegen.Render(small, &mimegen.Layout{Rng: common.NewRng(1)})
+			m := mimegen.Render(small, mk())
 			v := verdict
 			if o, err := r.call(request{Op: "msg", Data: m, Full: true}); err == nil && o.resp != nil {
 				if v2 := structureOracle(small, m, o.resp); v2 != "" {
@@ -613,12 +607,15 @@ func run(ctx *common.Ctx) error {
 				}
 			}
 			canon := "STRUCTURE " + mimegen.Shape(small) + " :: " + v
+			if layout.LF {
+				canon = "STRUCTURE(LF) " + mimegen.Shape(small) + " :: " + v
+			}
 			if !seenStructFail[canon] {
 				seenStructFail[canon] = true
 				fail(canon, "the structure/envelope reported for a well-formed message is not the tree it was built from: "+v,
 					map[string]interface{}{"shape": mimegen.Shape(small), "message": string(m), "tree": small, "msg": m, "first-seen-shape": shape, "first-seen-message": short(msg)})
 			}
-			continue // not compared with the model: the oracle failure is the finding
+			return "", nil // not compared with the model: the oracle failure is the finding
 		}
 		// cases.v: exact equality with the model's writer (ASCII strings only: the model's Quote is ASCII)
 		if ascii && len(msg) <= 700 && structCases < ctx.Budget(28, 150) {
@@ -631,17 +628,52 @@ func run(ctx *common.Ctx) error {
 			emitGeneric(msg, resp)
 		}
 		// (b3) the same message, damaged
-		if i%2 == 0 {
+		if i%2 == 0 && tag == "" {
 			bad := mutate(rng, msg)
 			res.Count("mutated-tree")
 			resp2, err := checkGeneric("mutated "+shape, bad, len(bad) <= 400)
 			if err != nil {
-				return err
+				return "", err
 			}
 			if resp2 != nil && resp2.Parts >= 2 {
 				res.Nontrivial(fmt.Sprintf("mut:%x", bad))
 			}
 			emitGeneric(bad, resp2)
+		}
+		ast, err := mimegen.ParsePList(resp.Body)
+		if err != nil {
+			return "", nil
+		}
+		return mimegen.LeafSignature(ast), nil
+	}
+	for i := 0; i < nTrees; i++ {
+		ascii := i%2 == 0
+		g := &mimegen.Gen{Rng: rng, MaxBody: 60, ASCII: ascii, MsgChainLeaf: true, Bare: true, NoClose: true, EmptyFields: true}
+		depth := rng.Range(0, 3)
+		if i%25 == 24 {
+			depth = 5
+		}
+		mix := rng.Chance(0.4)
+		tree := g.Tree(depth, rng.Chance(0.8), mix)
+		fold, lower := rng.Chance(0.5), rng.Chance(0.3)
+		if i%3 == 0 {
+			// the same tree in pure CRLF and in pure LF: both must describe the tree, and the leaves must agree
+			s1, err := runTree(i, tree, &mimegen.Layout{Rng: rng, Fold: fold, LowerHN: lower}, ascii, "")
+			if err != nil {
+				return err
+			}
+			s2, err := runTree(i, tree, &mimegen.Layout{Rng: rng, LF: true, Fold: fold, LowerHN: lower}, ascii, "-lf-twin")
+			if err != nil {
+				return err
+			}
+			if s1 != "" && s2 != "" && s1 != s2 {
+				fail("LF-CRLF-STRUCTURE-DIFFERS "+mimegen.Shape(tree), "leaves of the CRLF rendering: "+s1+" ; of the LF rendering: "+s2, map[string]interface{}{"shape": mimegen.Shape(tree), "tree": tree})
+			}
+			continue
+		}
+		layout := &mimegen.Layout{Rng: rng, MixEOL: mix, LF: !mix && rng.Chance(0.4), Fold: fold, LowerHN: lower}
+		if _, err := runTree(i, tree, layout, ascii, ""); err != nil {
+			return err
 		}
 	}
 
